@@ -55,7 +55,7 @@ def main():
     ap.add_argument("--tier", default="quick")
     ap.add_argument("--jobs", type=int, default=2)
     a = ap.parse_args()
-    names = sorted(n for n in os.listdir(SEEDED) if os.path.isdir(os.path.join(SEEDED, n)))
+    names = sorted(n for n in os.listdir(SEEDED) if os.path.isdir(os.path.join(SEEDED, n)) and not n.startswith("_"))
     if a.only:
         names = [n for n in names if n in a.only.split(",")]
     avail = available_checks()
